@@ -44,6 +44,10 @@ enum Rx {
     RecvVectored(usize, usize),
     RecvFromVectored(usize, usize),
     RecvMsg(usize),
+    RecvMsgVectored(usize, usize),
+    MsgManaged(usize),
+    /// the stream variants take up to this many datagrams
+    MsgMulti(usize),
     Managed(usize),
     FromManaged(usize),
     /// the stream variants take up to this many datagrams
@@ -86,7 +90,7 @@ fn datagrams() -> RunResult {
         })
         .collect();
     let rxs: Vec<Rx> = (0..n)
-        .map(|_| match sim::choose("rx.kind", 9) {
+        .map(|_| match sim::choose("rx.kind", 12) {
             0 => Rx::Recv(cap()),
             1 => Rx::RecvFrom(cap()),
             2 => Rx::RecvVectored(cap().min(64), cap()),
@@ -95,7 +99,10 @@ fn datagrams() -> RunResult {
             5 => Rx::Managed([0usize, 8, 64][sim::choose("rx.mlen", 3)]),
             6 => Rx::FromManaged([0usize, 8, 64][sim::choose("rx.mlen", 3)]),
             7 => Rx::Multi([0usize, 8][sim::choose("rx.mlen", 2)], 1 + sim::range("rx.take", 0, 2) as usize),
-            _ => Rx::FromMulti(1 + sim::range("rx.take", 0, 2) as usize),
+            8 => Rx::FromMulti(1 + sim::range("rx.take", 0, 2) as usize),
+            9 => Rx::RecvMsgVectored(cap().min(64), cap()),
+            10 => Rx::MsgManaged([0usize, 8, 64][sim::choose("rx.mlen", 3)]),
+            _ => Rx::MsgMulti(1 + sim::range("rx.take", 0, 2) as usize),
         })
         .collect();
     let capacity = 1u32 << sim::range("ring.capacity.log2", 0, 4);
@@ -242,6 +249,36 @@ fn datagrams() -> RunResult {
                                     if let Ok(BufResult(Ok((n, _, a, flags)), (b, _))) = compio_runtime::time::timeout(left, rx.recv_msg(Vec::with_capacity(c), Vec::<u8>::with_capacity(64))).await {
                                         check_len(&errs, &what, n, b.len());
                                         judge(&what, &b, b.capacity(), Some(a), Some(flags.contains(compio_driver::op::ReturnFlags::TRUNC)));
+                                    }
+                                }
+                                Rx::RecvMsgVectored(c1, c2) => {
+                                    if let Ok(BufResult(Ok((n, _, a, flags)), (bs, _))) = compio_runtime::time::timeout(left, rx.recv_msg_vectored([Vec::with_capacity(c1), Vec::with_capacity(c2)], Vec::<u8>::with_capacity(64))).await {
+                                        let room = bs[0].capacity() + bs[1].capacity();
+                                        let got: Vec<u8> = bs.iter().flatten().copied().collect();
+                                        check_len(&errs, &what, n, got.len());
+                                        judge(&what, &got, room, Some(a), Some(flags.contains(compio_driver::op::ReturnFlags::TRUNC)));
+                                    }
+                                }
+                                Rx::MsgManaged(l) => {
+                                    if let Ok(Ok(Some((b, _, a, flags)))) = compio_runtime::time::timeout(left, rx.recv_msg_managed(l, Vec::<u8>::with_capacity(64))).await {
+                                        judge(&what, &b, if l == 0 { pool_len } else { l.min(pool_len) }, Some(a), Some(flags.contains(compio_driver::op::ReturnFlags::TRUNC)));
+                                    }
+                                }
+                                Rx::MsgMulti(take) => {
+                                    let mut st = rx.recv_msg_multi(0).boxed_local();
+                                    let mut got = 0;
+                                    while got < take {
+                                        let left = deadline.saturating_duration_since(Instant::now()) + Duration::from_micros(100);
+                                        match compio_runtime::time::timeout(left, st.next()).await {
+                                            Ok(Some(Ok(r))) => {
+                                                let a = r.addr().and_then(|a| a.as_socket());
+                                                let room = if iour { pool_len.saturating_sub(header_room()) } else { pool_len };
+                                                judge(&what, r.data(), room, a, Some(r.flags().contains(compio_driver::op::ReturnFlags::TRUNC)));
+                                                got += 1;
+                                            }
+                                            Ok(Some(Err(e))) if e.kind() == std::io::ErrorKind::ResourceBusy && Instant::now() < deadline => compio_runtime::time::sleep(Duration::from_micros(5)).await,
+                                            _ => break,
+                                        }
                                     }
                                 }
                                 Rx::Managed(l) => {
